@@ -146,15 +146,26 @@ func execReq(f []string) string {
 		}
 	}
 	body, ok := unrle(f[2])
-	rk, err := strconv.Atoi(f[3])
-	if !ok || err != nil || rk < 0 {
+	if !ok {
 		return "bad-op"
 	}
 	var rd io.Reader
-	if rk == 0 {
-		rd = bytes.NewReader(body)
+	if strings.HasPrefix(f[3], "s:") { // scripted body reader: pieces n.n.n (0 = empty read with nil error) [e = EOF with the last data]
+		sz, e, sok := parseScript(f[3][2:])
+		if !sok {
+			return "bad-op"
+		}
+		rd = &scriptReader{b: append([]byte(nil), body...), sizes: sz, eofNow: e}
 	} else {
-		rd = &chunkReader{b: body, n: rk}
+		rk, err := strconv.Atoi(f[3])
+		if err != nil || rk < 0 {
+			return "bad-op"
+		}
+		if rk == 0 {
+			rd = bytes.NewReader(body)
+		} else {
+			rd = &chunkReader{b: body, n: rk}
+		}
 	}
 	c := &conn{r: bytes.NewReader(nil)}
 	cl := bfe_fcgi.VerifNewClient(c)
@@ -230,6 +241,10 @@ func exec(op string) string {
 		return execResp(f)
 	case "rt":
 		return execRT(f)
+	case "rd":
+		return execRd(f)
+	case "sw":
+		return execSw(f)
 	}
 	return "bad-op"
 }
@@ -245,6 +260,7 @@ func exec(op string) string {
 var (
 	rtLn    net.Listener
 	rtCh    = make(chan []byte, 16)
+	rtReplyCh = make(chan []byte, 16)
 	rtCount int
 )
 
@@ -255,7 +271,7 @@ func rtServe(c net.Conn) {
 	var got []byte
 	hdr := make([]byte, 8)
 	for {
-		c.SetReadDeadline(time.Now().Add(3 * time.Second))
+		c.SetReadDeadline(time.Now().Add(30 * time.Second))
 		if _, err := io.ReadFull(c, hdr); err != nil {
 			rtCh <- nil
 			return
@@ -271,11 +287,50 @@ func rtServe(c net.Conn) {
 			break
 		}
 	}
+	c.Write(<-rtReplyCh)
+	rtCh <- got
+}
+
+func cannedReply() []byte {
 	out := frame(1, 6, 1, len(rtReply), []byte(rtReply), -len(rtReply)&7)
 	out = append(out, frame(1, 6, 1, 0, nil, 0)...)
-	out = append(out, frame(1, 3, 1, 8, make([]byte, 8), 0)...)
-	c.Write(out)
-	rtCh <- got
+	return append(out, frame(1, 3, 1, 8, make([]byte, 8), 0)...)
+}
+
+// dumpResp renders what Transport.RoundTrip returned: code|status|sorted headers|ContentLength|TransferEncoding|body
+func dumpResp(resp *bfe_http.Response, err error) string {
+	if err != nil {
+		return "E"
+	}
+	var ks []string
+	for k := range resp.Header {
+		ks = append(ks, k)
+	}
+	sort.Strings(ks)
+	var hs []string
+	for _, k := range ks {
+		var vs []string
+		for _, v := range resp.Header[k] {
+			vs = append(vs, hexs(v))
+		}
+		hs = append(hs, hexs(k)+"="+strings.Join(vs, ","))
+	}
+	var te []string
+	for _, t := range resp.TransferEncoding {
+		te = append(te, hexs(t))
+	}
+	j := func(xs []string, sep string) string {
+		if len(xs) == 0 {
+			return "-"
+		}
+		return strings.Join(xs, sep)
+	}
+	b, berr := ioutil.ReadAll(resp.Body)
+	bad := ""
+	if berr != nil {
+		bad = "!"
+	}
+	return fmt.Sprintf("%d|%s|%s|%d|%s|%s%s", resp.StatusCode, hexs(resp.Status), j(hs, ";"), resp.ContentLength, j(te, ","), rle(b), bad)
 }
 
 func rtInit() {
@@ -310,8 +365,18 @@ func rtOracle(root, path, host string, u *url.URL) []string {
 func hexs(s string) string { return vh.Hex([]byte(s)) }
 
 func execRT(f []string) string {
-	if len(f) != 18 {
+	if len(f) == 18 {
+		f = append(f, "-")
+	}
+	if len(f) != 19 {
 		return "bad-op"
+	}
+	reply := cannedReply()
+	if f[18] != "-" {
+		var rok bool
+		if reply, rok = unrle(f[18]); !rok {
+			return "bad-op"
+		}
 	}
 	var sv [18]string
 	for _, i := range []int{1, 2, 3, 4, 5, 6, 7, 9} {
@@ -369,16 +434,140 @@ func execRT(f []string) string {
 	if rtCount++; rtCount%64 == 0 {
 		runtime.GC() // RoundTrip never closes its connection; let the finalizers do it
 	}
+	rtReplyCh <- reply
 	resp, rerr := tr.RoundTrip(req)
 	got := <-rtCh
-	if rerr != nil {
-		return "err:roundtrip"
-	}
 	if got == nil {
 		return "err:responder"
 	}
-	b, _ := ioutil.ReadAll(resp.Body)
-	return rle(got) + " " + strconv.Itoa(resp.StatusCode) + " " + vh.Hex(b)
+	return rle(got) + " " + dumpResp(resp, rerr)
+}
+
+// ---- rd: streamReader.Read call by call (the (n, err) contract), over a scripted connection
+//
+// op `rd <conn bytes> <conn script> <sizes>`  conn script = `-` | n.n.n[e] (pieces conn.Read returns, 0 = empty read with nil
+//   error, then the rest; trailing e = io.EOF together with the last data); sizes = len(p) of the successive Read calls (n.n.n)
+// result `<n>:<err>,<n>:<err>,...|<all delivered bytes RLE>`   err = nil|eof|short|ver|other
+
+type scriptReader struct {
+	b      []byte
+	sizes  []int
+	eofNow bool
+}
+
+func parseScript(script string) (sizes []int, e bool, ok bool) {
+	if script == "-" {
+		return nil, false, true
+	}
+	if strings.HasSuffix(script, "e") {
+		e = true
+		script = script[:len(script)-1]
+	}
+	if script != "" {
+		for _, x := range strings.Split(script, ".") {
+			n, err := strconv.Atoi(x)
+			if err != nil || n < 0 {
+				return nil, false, false
+			}
+			sizes = append(sizes, n)
+		}
+	}
+	return sizes, e, true
+}
+
+func (s *scriptReader) Read(p []byte) (int, error) {
+	if len(s.b) == 0 {
+		return 0, io.EOF
+	}
+	if len(p) == 0 {
+		return 0, nil
+	}
+	n := len(s.b)
+	if len(s.sizes) > 0 {
+		n = s.sizes[0]
+		s.sizes = s.sizes[1:]
+		if n == 0 {
+			return 0, nil
+		}
+	}
+	if n > len(s.b) {
+		n = len(s.b)
+	}
+	if n > len(p) {
+		n = len(p)
+	}
+	copy(p, s.b[:n])
+	s.b = s.b[n:]
+	if len(s.b) == 0 && s.eofNow {
+		return n, io.EOF
+	}
+	return n, nil
+}
+
+func errKind(err error) string {
+	switch {
+	case err == nil:
+		return "nil"
+	case err == io.EOF:
+		return "eof"
+	case err == io.ErrUnexpectedEOF:
+		return "short"
+	case strings.Contains(err.Error(), "invalid header version"):
+		return "ver"
+	}
+	return "other"
+}
+
+func execRd(f []string) string {
+	if len(f) != 4 {
+		return "bad-op"
+	}
+	raw, ok := unrle(f[1])
+	cs, ce, ok2 := parseScript(f[2])
+	sizes, _, ok3 := parseScript(f[3])
+	if !ok || !ok2 || !ok3 {
+		return "bad-op"
+	}
+	c := &conn{r: &scriptReader{b: append([]byte(nil), raw...), sizes: cs, eofNow: ce}}
+	rd := bfe_fcgi.VerifNewStreamReader(bfe_fcgi.VerifNewClient(c))
+	var steps []string
+	var data []byte
+	for _, sz := range sizes {
+		p := make([]byte, sz)
+		for i := range p {
+			p[i] = 0xEE
+		}
+		n, err := rd.Read(p)
+		if n < 0 || n > sz {
+			return "bad-n"
+		}
+		for _, x := range p[n:] { // Read must not touch p beyond n
+			if x != 0xEE {
+				return "scribbled"
+			}
+		}
+		data = append(data, p[:n]...)
+		steps = append(steps, strconv.Itoa(n)+":"+errKind(err))
+	}
+	if len(steps) == 0 {
+		return "-|-"
+	}
+	return strings.Join(steps, ",") + "|" + rle(data)
+}
+
+// ---- sw: streamWriter.Write directly (return value contract): op `sw <type> <bytes>` -> `<n>:<err> <written RLE>`
+func execSw(f []string) string {
+	if len(f) != 3 {
+		return "bad-op"
+	}
+	t, err := strconv.Atoi(f[1])
+	p, ok := unrle(f[2])
+	if err != nil || !ok || t < 0 || t > 255 {
+		return "bad-op"
+	}
+	c := &conn{r: bytes.NewReader(nil)}
+	n, werr := bfe_fcgi.VerifStreamWrite(bfe_fcgi.VerifNewClient(c), uint8(t), p)
+	return strconv.Itoa(n) + ":" + errKind(werr) + " " + rle(c.w.Bytes())
 }
 
 func genRT(r *vh.Rand) string {
@@ -481,8 +670,12 @@ func genRT(r *vh.Rand) string {
 	}
 	u := &url.URL{Scheme: scheme, Host: "127.0.0.1:1", Path: path, RawQuery: rawq}
 	or := rtOracle(root, path, host, u)
-	return fmt.Sprintf("rt %s %s %s %s %s %s %s %s %s %s %s %s %s", hexs(method), hexs(remote), hexs(host), hexs(path), hexs(rawq),
-		hexs(proto), hexs(scheme), cl, hexs(root), j(env), j(hs), rle(blob(r, bl)), strings.Join(or, " "))
+	reply := "-"
+	if r.Chance(3, 4) {
+		reply = rle(genReply(r))
+	}
+	return fmt.Sprintf("rt %s %s %s %s %s %s %s %s %s %s %s %s %s %s", hexs(method), hexs(remote), hexs(host), hexs(path), hexs(rawq),
+		hexs(proto), hexs(scheme), cl, hexs(root), j(env), j(hs), rle(blob(r, bl)), strings.Join(or, " "), reply)
 }
 
 // ---- generation
@@ -628,7 +821,145 @@ func genReq(r *vh.Rand) string {
 	if rk > 0 && rk < 64 && bl > 8000 {
 		rk = 4096
 	}
-	return "req " + pairs + " " + rle(blob(r, bl)) + " " + strconv.Itoa(rk)
+	rks := strconv.Itoa(rk)
+	if bl > 0 && r.Chance(1, 5) { // scripted reader: odd pieces, empty reads with nil error, EOF together with the last data
+		rks = "s:" + genScript(r, bl, true)
+	}
+	return "req " + pairs + " " + rle(blob(r, bl)) + " " + rks
+}
+
+// genScript: 0..5 piece sizes for n bytes (then the rest in one piece), optionally `e`
+func genScript(r *vh.Rand, n int, zeros bool) string {
+	var xs []string
+	for i, k := 0, r.Range(0, 5); i < k; i++ {
+		v := pick(r, 1, 2, 3, 7, 8, 9, 15, 16, 17, n-1, n/2, r.Intn(n+1), 512, 4096, 65499, 65500, 65501)
+		if v < 0 {
+			v = 1
+		}
+		if zeros && r.Chance(1, 6) {
+			v = 0
+		}
+		xs = append(xs, strconv.Itoa(v))
+	}
+	sc := strings.Join(xs, ".")
+	if r.Bool() {
+		sc += "e"
+	}
+	if sc == "" {
+		sc = "-"
+	}
+	return sc
+}
+
+// a CGI reply (header block + body) cut into STDOUT records at odd places, as conn bytes
+func genReply(r *vh.Rand) []byte {
+	var hb []byte
+	line := func(k, v string) {
+		eol := "\r\n"
+		if r.Chance(1, 6) {
+			eol = "\n"
+		}
+		sp := r.Pick(" ", " ", "", "  ", "\t")
+		hb = append(hb, []byte(k+":"+sp+v+r.Pick("", "", " ", "\t ")+eol)...)
+	}
+	if r.Chance(3, 4) {
+		line(r.Pick("Status", "Status", "status", "STATUS"), r.Pick("200 OK", "404 Not Found", "302", "500 Internal Server Error", "abc", "+200 plus",
+			"-5 neg", "204", "99999999999999999999 big", "200  two  spaces", "0", "007 bond"))
+	}
+	for i, n := 0, r.Range(0, 5); i < n; i++ {
+		switch r.Intn(12) {
+		case 0:
+			line("Location", r.Pick("/x", "http://example.org/a?b=c"))
+		case 1:
+			line(r.Pick("Content-Length", "content-length"), r.Pick("5", "0", "x", "-1", "123456789012"))
+		case 2:
+			line("Set-Cookie", "a="+strconv.Itoa(r.Intn(100)))
+			line(r.Pick("Set-Cookie", "set-cookie", "SET-COOKIE"), "b=2; Path=/")
+		case 3:
+			line(r.Pick("x-lower-case", "X-MiXeD-cAsE", "X_under_score", "X.dot", "A b", "", "Sp ace-Hdr", "X-"+strconv.Itoa(r.Intn(10))), r.Pick("v", "", "a: b: c", "  "))
+		case 4:
+			line("Status", "201 second status line")
+		case 5:
+			if r.Chance(1, 3) {
+				line("Transfer-Encoding", r.Pick("chunked", "identity"))
+			} else {
+				line("Content-Type", "text/html; charset=utf-8")
+			}
+		case 6:
+			if r.Chance(1, 2) {
+				hb = append(hb, []byte(r.Pick(" continued line\r\n", "no colon here\r\n", "\tTab: x\r\n"))...)
+			}
+		default:
+			line(r.Pick("Content-Type", "X-Powered-By", "Cache-Control", "Vary", "ETag"), r.Pick("text/plain", "PHP/8.2", "no-cache", "\"abc\"", "x"))
+		}
+	}
+	if !r.Chance(1, 25) {
+		hb = append(hb, []byte(r.Pick("\r\n", "\r\n", "\n"))...)
+	}
+	all := append(hb, blob(r, pick(r, 0, 1, 5, 40, 300, r.Intn(3000)))...)
+	var out []byte
+	rec := func(t byte, c []byte) {
+		pad := -len(c) & 7
+		if r.Chance(1, 5) {
+			pad = pick(r, 0, 1, 7, 255)
+		}
+		out = append(out, frame(1, t, 1, len(c), c, pad)...)
+	}
+	for len(all) > 0 { // odd cuts: inside a header name, between CR and LF, 1 byte, ...
+		n := pick(r, 1, 2, 3, 5, 8, 13, 21, 100, len(all), len(all), len(hb), len(hb)-1, len(hb)+1)
+		if n < 1 {
+			n = 1
+		}
+		if n > len(all) {
+			n = len(all)
+		}
+		rec(6, all[:n])
+		all = all[n:]
+		if r.Chance(1, 12) {
+			rec(7, []byte(r.Pick("", "PHP Notice: x", "E")))
+		}
+		if r.Chance(1, 20) {
+			rec(6, nil)
+		}
+	}
+	if r.Chance(5, 6) {
+		rec(6, nil)
+	}
+	end := make([]byte, 8)
+	end[3], end[4] = byte(r.Intn(256)), byte(r.Intn(4)) // app status, protocol status
+	if r.Chance(1, 20) {
+		end[0] = 1 // exit status >= 2^24: the END body looks like a record header
+	}
+	if !r.Chance(1, 30) {
+		rec(3, end)
+	}
+	if r.Chance(1, 10) {
+		rec(6, []byte("after end"))
+	}
+	return out
+}
+
+func genRd(r *vh.Rand) string {
+	var conn []byte
+	if r.Bool() {
+		conn = genReply(r)
+	} else {
+		f := strings.Fields(genResp(r))
+		conn, _ = unrle(f[1])
+	}
+	if len(conn) > 20000 {
+		conn = genReply(r)
+	}
+	var szs []string
+	for i, k := 0, r.Range(1, 14); i < k; i++ {
+		szs = append(szs, strconv.Itoa(pick(r, 0, 1, 2, 3, 7, 8, 9, 16, 64, 512, 4096, 70000)))
+	}
+	return "rd " + rle(conn) + " " + genScript(r, len(conn)+1, true) + " " + strings.Join(szs, ".")
+}
+
+func genSw(r *vh.Rand) string {
+	n := pick(r, 0, 1, 7, 8, 9, 255, 65499, 65500, 65501, 65535, 65536, 131000, 131001, r.Intn(200000))
+	return fmt.Sprintf("sw %d %s", pick(r, 4, 5, 5, 1, 255), rle(blob(r, n)))
 }
 
 func frame(ver, typ byte, id, cl int, content []byte, pad int) []byte {
@@ -739,11 +1070,15 @@ func genResp(r *vh.Rand) string {
 }
 
 func gen(r *vh.Rand) string {
-	switch r.Intn(10) {
+	switch r.Intn(12) {
 	case 0, 1, 2, 3:
 		return genReq(r)
 	case 4, 5, 6:
 		return genRT(r)
+	case 7, 8:
+		return genRd(r)
+	case 9:
+		return genSw(r)
 	}
 	return genResp(r)
 }
